@@ -69,6 +69,28 @@ def directed_units(rng, ws, n_each):
     src = ('empty !baba(int c) { if (c > 5) { preempt { write("p"); } } write("b"); }\n'
            'empty @is_you(int a, int b) { try { write("<"); !baba(a); !truth_is_defeat(b > 0); write(">"); } undo { write("U"); } write("."); }\n')
     units.append((src, [Cfg((str(a), str(b)), w, 100, False) for a in (0, 9) for b in (0, 1) for w in ws]))
+    # compile-time constant indices and lengths (the generator may special-case immediates)
+    for el, (lit, rd) in els.items():
+        val = {'int': '7', 'byte': "'z'", 'bool': 'false'}[el]
+        for storage in ('local', 'global', 'constglobal'):
+            for idx in ('(-1)', '0', '3', '4', '5', '255', '256'):
+                for form in ('read', 'write'):
+                    if form == 'write' and storage == 'constglobal':
+                        continue
+                    op = 'write(a[%s]); write(\' \');' % idx if form == 'read' else 'a[%s] = %s; write("w");' % (idx, val)
+                    decl = '%s%s[] a = %s;' % ('const ' if storage == 'constglobal' else '', el, lit)
+                    guard = 'int[] canary = [1234, 5678];'
+                    if storage == 'local':
+                        src = 'empty @is_you() {\n  %s %s %s\n  write("<"); %s write(">"); write(canary[0]); write(canary[1]);\n}\n' % (guard, decl, guard.replace('canary', 'canary2'), op)
+                    else:
+                        src = 'int[] canary = [1234, 5678];\n%s\nint[] canary2 = [1234, 5678];\nempty @is_you() {\n  write("<"); %s write(">"); write(canary[0]); write(canary[1]); write(canary2[0]);\n}\n' % (decl, op)
+                    units.append((src, [Cfg((), w, 100, False) for w in ws]))
+    for idx in ('(-1)', '0', '4', '5', '6'):
+        units.append(('empty @is_you() { write("<"); write("hello"[%s]); write(">"); }\n' % idx, [Cfg((), w, 100, False) for w in ws]))
+        units.append(('const int K = %s;\nstring s = "hello";\nempty @is_you() { write("<"); write(s[K]); write(">"); }\n' % idx, [Cfg((), w, 100, False) for w in ws]))
+    for n in ('(-1)', '0', '3', '(-8)', '32767', '16383', '16384'):
+        for el in ('int', 'byte', 'bool'):
+            units.append(('empty @is_you() { write("<"); %s a[%s]; write(a.length); write(">"); }\n' % (el, n), [Cfg((), w, 60, False) for w in ws]))
     # the only preempt of the defeat function sits in every syntactic position
     bodies = {
         'then': 'if (c > 5) { preempt { write("p"); } }',
